@@ -11,9 +11,13 @@ Proved: Operation.clone_without_regions (operand / successor remapping through t
 attribute and property dictionaries, results registered in the value mapper, frames) and Operation.clone
 (after its final walk every operand of every op of the copy is the image of the source operand under
 the FINAL value mapper - own results and use-before-def included - and no operand list of the source
-changes), the latter on top of the former's contract and an assumed contract of Region.clone_into.
-The whole-tree statement for Region.clone_into / apply_to_clone is decided by the bounded stand-in
-with an independent isomorphism oracle.
+changes) and Region.clone_into in the form Operation.clone calls it (clone_operands=False: every block
+argument and every value defined by or inside an op of the region is registered in the value mapper,
+entries for values defined elsewhere keep their image, nothing that existed before is touched).
+Operation.clone and Region.clone_into are verified against EACH OTHER'S discharged contract (mutual
+recursion over a finite tree: partial correctness) on top of clone_without_regions' contract.
+The whole-tree statement (isomorphism of the copy, Region.clone / clone_into with clone_operands=True,
+apply_to_clone) is decided by the bounded stand-in with an independent isomorphism oracle.
 """
 
 from __future__ import annotations
@@ -25,6 +29,7 @@ import z3
 from contracts import C02_native as N02
 from contracts.common import A, AX, C, forall
 from pyvc.spec import Builtin, Inline, Spec
+from pyvc.values import Unsupported
 from pyvc.values import Clause, VBool, VInt, VRef, VSeq, VTuple, Vocab, z_int
 
 PROP = "C02"
@@ -193,6 +198,42 @@ class CloneWithoutRegions(Spec):
 WALK = z3.Function("walk_of", I, z3.ArraySort(I, I))  # pre-order walk of an op tree (the op itself first)
 NWALK = z3.Function("n_walk_of", I, I)
 INSIDE_R = z3.Function("defined_inside_region", I, I, z3.BoolSort())  # value v is a block argument / op result defined inside region r
+INSIDE_O = z3.Function("defined_by_or_inside_op", I, I, z3.BoolSort())  # value v is a result of op o or defined inside one of o's regions
+A_II = z3.ArraySort(I, I)
+BLOCKS, NBLOCKS = z3.Function("blocks_of_region", I, A_II), z3.Function("n_blocks_of_region", I, I)
+OPSB, NOPSB = z3.Function("ops_of_block", I, A_II), z3.Function("n_ops_of_block", I, I)
+ARGSB, NARGSB = z3.Function("args_of_block", I, A_II), z3.Function("n_args_of_block", I, I)
+# Skolem witnesses of the two definitions (where an inside value is defined)
+BI, AI, OI = (z3.Function(n, I, I, I) for n in ("block_index_of_inside_value", "arg_index_of_inside_value", "op_index_of_inside_value"))
+RI, GI = (z3.Function(n, I, I, I) for n in ("result_index_of_inside_value", "region_index_of_inside_value"))
+
+
+def inside_region_def(r):
+    """INSIDE_R(r, .) unfolded one level (definition, both directions): a block argument of a block of r, or defined by/inside an op of a block of r."""
+    x, k, i = z3.Ints("ir!x ir!k ir!i")
+    b = lambda kk: BLOCKS(r)[kk]
+    bx = b(BI(r, x))
+    return [AX("defined-inside-region: only if", forall([x], z3.Implies(INSIDE_R(r, x), z3.And(
+                BI(r, x) >= 0, BI(r, x) < NBLOCKS(r),
+                z3.Or(z3.And(AI(r, x) >= 0, AI(r, x) < NARGSB(bx), x == ARGSB(bx)[AI(r, x)]),
+                      z3.And(OI(r, x) >= 0, OI(r, x) < NOPSB(bx), INSIDE_O(OPSB(bx)[OI(r, x)], x))))), patterns=[INSIDE_R(r, x)])),
+            AX("defined-inside-region: if block argument", forall([k, i], z3.Implies(z3.And(k >= 0, k < NBLOCKS(r), i >= 0, i < NARGSB(b(k))),
+                                                                                      INSIDE_R(r, ARGSB(b(k))[i])), patterns=[ARGSB(b(k))[i]])),
+            AX("defined-inside-region: if inside an op", forall([k, i, x], z3.Implies(z3.And(k >= 0, k < NBLOCKS(r), i >= 0, i < NOPSB(b(k)), INSIDE_O(OPSB(b(k))[i], x)),
+                                                                                       INSIDE_R(r, x)), patterns=[INSIDE_O(OPSB(b(k))[i], x)]))]
+
+
+def inside_op_def(st, o):
+    """INSIDE_O(o, .) unfolded one level (definition, both directions): a result of o, or defined inside one of o's regions (lists read in state st)."""
+    x, j = z3.Ints("io!x io!j")
+    nres, nreg = st.seq_len("results", o), st.seq_len("regions", o)
+    return [AX("defined-by-or-inside-op: only if", forall([x], z3.Implies(INSIDE_O(o, x), z3.Or(
+                z3.And(RI(o, x) >= 0, RI(o, x) < nres, x == st.seq_el("results", o, RI(o, x))),
+                z3.And(GI(o, x) >= 0, GI(o, x) < nreg, INSIDE_R(st.seq_el("regions", o, GI(o, x)), x)))), patterns=[INSIDE_O(o, x)])),
+            AX("defined-by-or-inside-op: if result", forall([j], z3.Implies(z3.And(j >= 0, j < nres), INSIDE_O(o, st.seq_el("results", o, j))),
+                                                            patterns=[st.seq_el("results", o, j)])),
+            AX("defined-by-or-inside-op: if inside a region", forall([j, x], z3.Implies(z3.And(j >= 0, j < nreg, INSIDE_R(st.seq_el("regions", o, j), x)), INSIDE_O(o, x)),
+                                                                     patterns=[INSIDE_R(st.seq_el("regions", o, j), x)]))]
 
 
 def b_set_operands(ex, st, args, kw):
@@ -222,24 +263,27 @@ class CwrCallee(CloneWithoutRegions):
         return [Clause(c.name, c.z, "aux") for c in CloneWithoutRegions.post(self, old, st, a2, res)]
 
 
+def clone_into_post(old, st, r, vm, bm):
+    """The contract of Region.clone_into(dest, idx, value_mapper, block_mapper, clone_operands=False) - proved by unit CloneInto, used by Operation.clone."""
+    x, d, o = z3.Ints("ci!x ci!d ci!o")
+    return [("no-entry-of-the-value-mapper-is-removed", forall([x], z3.Implies(old.dict_has(vm, x), st.dict_has(vm, x)))),
+            ("entries-for-values-defined-outside-the-region-are-kept", forall([x], z3.Implies(z3.And(old.dict_has(vm, x), z3.Not(INSIDE_R(r, x))),
+                                                                                                 st.dict_val(vm, x) == old.dict_val(vm, x)))),
+            ("every-value-defined-inside-the-region-is-registered", forall([x], z3.Implies(INSIDE_R(r, x), st.dict_has(vm, x)))),
+            ("pre-existing-dictionaries-other-than-the-mappers-unchanged", forall([d], z3.Implies(z3.And(d != vm, d != bm, old.alloc()[d]),
+                                                                                                     z3.And(st.dict_dom(d) == old.dict_dom(d), st.dict_vals(d) == old.dict_vals(d))))),
+            ("pre-existing-operand-lists-untouched", forall([o], z3.Implies(old.alloc()[o], z3.And(st.seq_len("_operands", o) == old.seq_len("_operands", o),
+                                                                                                    st.seq_arr("_operands", o) == old.seq_arr("_operands", o)))))]
+
+
 class CloneIntoCallee(Spec):
-    """
-    Region.clone_into(dest, 0, value_mapper, block_mapper, clone_operands=False) as seen by Operation.clone (ASSUMED here; exercised by the bounded
-    stand-in): registers every value defined inside the region in the value mapper, keeps existing entries, touches no operand list of a
-    pre-existing op.
-    """
+    """Region.clone_into(dest, 0, value_mapper, block_mapper, clone_operands=False) as seen by Operation.clone: the postcondition discharged by unit CloneInto."""
 
     prop, file, qualname = PROP, CORE, "Region.clone_into"
-    trusted = True
-    modifies = ["dict#dom", "dict#val"]
+    modifies = ["dict#dom", "dict#val", "_operands#len", "_operands#el"]
 
     def post(self, old, st, a, res):
-        vm, bm = a["value_mapper"].z, a["block_mapper"].z
-        r = a["self"].z
-        x, d = z3.Ints("ci!x ci!d")
-        return [A("existing-entries-kept", forall([x], z3.Implies(old.dict_has(vm, x), z3.And(st.dict_has(vm, x), st.dict_val(vm, x) == old.dict_val(vm, x))))),
-                A("inside-values-registered", forall([x], z3.Implies(INSIDE_R(r, x), st.dict_has(vm, x)))),
-                A("other-dicts-unchanged", forall([d], z3.Implies(z3.And(d != vm, d != bm), z3.And(st.dict_dom(d) == old.dict_dom(d), st.dict_vals(d) == old.dict_vals(d)))))]
+        return [Clause(n, z, "aux") for n, z in clone_into_post(old, st, a["self"].z, a["value_mapper"].z, a["block_mapper"].z)]
 
 
 class CloneOp(Spec):
@@ -295,6 +339,10 @@ class CloneOp(Spec):
                 A("the source tree is allocated", forall([j], z3.Implies(z3.And(j >= 0, j < NWALK(me)), z3.And(WALK(me)[j] != 0, al[WALK(me)[j]])))),
                 A("operand-lists-have-lengths", forall([o], st.seq_len("_operands", o) >= 0)),
                 A("regions-are-objects", forall([j], z3.Implies(z3.And(j >= 0, j < st.seq_len("regions", me)), st.seq_el("regions", me, j) != 0)))]
+        out += inside_op_def(st, me)
+        out.append(A("a-value-has-one-definition: the op's own results are not defined inside its regions",
+                     forall([j, k], z3.Implies(z3.And(j >= 0, j < st.seq_len("results", me), k >= 0, k < st.seq_len("regions", me)),
+                                               z3.Not(INSIDE_R(st.seq_el("regions", me, k), st.seq_el("results", me, j)))))))
         return out
 
     def _copy_walk_axioms(self, entry_alloc, me, op):
@@ -312,11 +360,19 @@ class CloneOp(Spec):
         if n == 0:
             # for idx, region in enumerate(self.regions): region.clone_into(...)
             fe = self._fentry
-            return [A("entries-kept", forall([x], z3.Implies(entry.dict_has(vm, x), z3.And(st.dict_has(vm, x), st.dict_val(vm, x) == entry.dict_val(vm, x))))),
-                    A("inside-values-of-processed-regions-registered", forall([j, x], z3.Implies(z3.And(j >= 0, j < lv["k"], INSIDE_R(fe.seq_el("regions", me, j), x)), st.dict_has(vm, x)))),
-                    A("operand-lists-untouched", z3.And(st.fld("_operands#len") == entry.fld("_operands#len"), st.arr2("_operands#el") == entry.arr2("_operands#el"))),
-                    A("other-dicts-unchanged", forall([d], z3.Implies(z3.And(d != vm, d != bm), z3.And(st.dict_dom(d) == entry.dict_dom(d), st.dict_vals(d) == entry.dict_vals(d))))),
-                    A("regions-of-both-ops-unchanged", z3.And(st.fld("regions#len") == entry.fld("regions#len"), st.arr2("regions#el") == entry.arr2("regions#el")))]
+            reg = lambda jj: fe.seq_el("regions", me, jj)
+            return [A("no-entry-removed", forall([x], z3.Implies(entry.dict_has(vm, x), st.dict_has(vm, x)))),
+                    A("entries-for-values-defined-elsewhere-kept", forall([x], z3.Implies(z3.And(entry.dict_has(vm, x), z3.Not(INSIDE_O(me, x))),
+                                                                                            st.dict_val(vm, x) == entry.dict_val(vm, x)))),
+                    A("own-result-entries-kept", forall([j], z3.Implies(z3.And(j >= 0, j < fe.seq_len("results", me)),
+                                                                          st.dict_val(vm, fe.seq_el("results", me, j)) == entry.dict_val(vm, fe.seq_el("results", me, j))))),
+                    A("inside-values-of-processed-regions-registered", forall([j, x], z3.Implies(z3.And(j >= 0, j < lv["k"], INSIDE_R(reg(j), x)), st.dict_has(vm, x)))),
+                    A("pre-existing-operand-lists-untouched", forall([i], z3.Implies(fe.alloc()[i], z3.And(st.seq_len("_operands", i) == entry.seq_len("_operands", i),
+                                                                                                             st.seq_arr("_operands", i) == entry.seq_arr("_operands", i))))),
+                    A("pre-existing-dicts-unchanged", forall([d], z3.Implies(z3.And(d != vm, d != bm, fe.alloc()[d]),
+                                                                               z3.And(st.dict_dom(d) == entry.dict_dom(d), st.dict_vals(d) == entry.dict_vals(d))))),
+                    A("regions-and-results-of-all-ops-unchanged", z3.And(st.fld("regions#len") == entry.fld("regions#len"), st.arr2("regions#el") == entry.arr2("regions#el"),
+                                                                         st.fld("results#len") == entry.fld("results#len"), st.arr2("results#el") == entry.arr2("results#el")))]
         # for old, new in zip(self.walk(), op.walk()): new.operands = tuple(value_mapper.get(operand, operand) for operand in old.operands)
         k = lv["k"]
         m = lambda v: z3.If(entry.dict_has(vm, v), entry.dict_val(vm, v), v)
@@ -340,6 +396,16 @@ class CloneOp(Spec):
                    st.dict_has(vm, old.seq_el("results", me, j)), st.dict_val(vm, old.seq_el("results", me, j)) == st.seq_el("results", op, j))))),
                C("values-defined-inside-the-regions-are-registered-in-the-final-mapper",
                  forall([j, x], z3.Implies(z3.And(j >= 0, j < old.seq_len("regions", me), INSIDE_R(old.seq_el("regions", me, j), x)), st.dict_has(vm, x))))]
+        d, o = z3.Ints("cq!d cq!o")
+        bm = a["_bm"]
+        out += [C("every-value-defined-by-the-op-or-inside-it-is-registered", forall([x], z3.Implies(INSIDE_O(me, x), st.dict_has(vm, x)))),
+                C("no-entry-of-the-value-mapper-is-removed", forall([x], z3.Implies(old.dict_has(vm, x), st.dict_has(vm, x)))),
+                C("entries-for-values-defined-elsewhere-are-kept", forall([x], z3.Implies(z3.And(old.dict_has(vm, x), z3.Not(INSIDE_O(me, x))),
+                                                                                            st.dict_val(vm, x) == old.dict_val(vm, x)))),
+                C("pre-existing-dictionaries-other-than-the-mappers-unchanged", forall([d], z3.Implies(z3.And(d != vm, d != bm, old.alloc()[d]),
+                                                                                                         z3.And(st.dict_dom(d) == old.dict_dom(d), st.dict_vals(d) == old.dict_vals(d))))),
+                C("pre-existing-operand-lists-untouched", forall([o], z3.Implies(old.alloc()[o], z3.And(st.seq_len("_operands", o) == old.seq_len("_operands", o),
+                                                                                                         st.seq_arr("_operands", o) == old.seq_arr("_operands", o)))))]
         if a["clone_operands"]:
             out.append(C("every-operand-of-the-copy-is-the-image-of-the-source-operand-under-the-final-mapper (inside references point into the copy, outside ones are kept)",
                          forall([j], z3.Implies(z3.And(j >= 0, j < NWALK(me)), z3.And(
@@ -347,6 +413,164 @@ class CloneOp(Spec):
                              forall([i], z3.Implies(z3.And(i >= 0, i < old.seq_len("_operands", WALK(me)[j])),
                                                     st.seq_el("_operands", WALK(op)[j], i) == m(old.seq_el("_operands", WALK(me)[j], i)))))))))
         return out
+
+    def native_search(self, inst, seed):
+        r = N02.explore("quick", seed)
+        return r["failures"][0] if r["failures"] else None
+
+
+class CloneOpCallee(CloneOp):
+    """Operation.clone(value_mapper, block_mapper, clone_operands=False) as seen by Region.clone_into: its discharged postcondition."""
+
+    def __init__(self):
+        pass
+
+    modifies = ["dict#dom", "dict#val", "_operands#len", "_operands#el"]
+
+    def result_value(self, st, a):
+        return VRef(st.new_object("op_clone"), "Operation")
+
+    def pre(self, st, a):
+        return []
+
+    def post(self, old, st, a, res):
+        co = a["clone_operands"]
+        a2 = dict(a, _me=a["self"].z, _vm=a["value_mapper"].z, _bm=a["block_mapper"].z, clone_operands=bool(co) if isinstance(co, bool) else co)
+        if not isinstance(a2["clone_operands"], bool):
+            raise Unsupported("clone_operands must be a literal at this call")
+        return [Clause(c.name, c.z, "aux") for c in CloneOp.post(self, old, st, a2, res)]
+
+
+class CloneInto(Spec):
+    """
+    Region.clone_into(dest, insert_index, value_mapper, block_mapper, clone_operands=False) - the form Operation.clone calls: every block argument and
+    every value defined by or inside an op of the region ends up registered in the value mapper; entries for values defined outside the region keep
+    their image; no entry is removed; dictionaries and operand lists that existed before the call are untouched.  Operation.clone is used through
+    its discharged contract (mutual recursion over a finite tree: partial correctness).
+    """
+
+    prop, file, qualname = PROP, CORE, "Region.clone_into"
+    modifies = ["dict#dom", "dict#val", "_operands#len", "_operands#el"]
+
+    def __init__(self):
+        from pyvc.engine import Res
+
+        def b_block(ex, st, args, kw):
+            return [Res("val", VRef(st.new_object("new_block"), "Block"), st)]
+
+        noop = lambda doc: Builtin(lambda ex, st, a, k: [Res("val", None, st)], doc)
+
+        def b_insert_arg(ex, st, args, kw):
+            # new_block.insert_arg(type, idx, location): afterwards new_block.args[idx] is the inserted argument (C01); recorded for the read that follows
+            st.ghost["ins_blk"], st.ghost["ins_idx"] = args[0].z, z_int(args[2])
+            return [Res("val", None, st)]
+
+        b_insert_arg.ghost_modifies = ["ins_blk", "ins_idx"]
+        self.calls = {"Block": Builtin(b_block, "Block(): a fresh block"),
+                      "dest.insert_block": noop("Region.insert_block: block-list surgery on the destination (C01); touches no mapper, no operand list"),
+                      ".insert_arg": Builtin(b_insert_arg, "Block.insert_arg on a block created by this call (C01): args[idx] is then the new argument"),
+                      "new_block.add_op": noop("Block.add_op on a block created by this call (C01)"),
+                      "op.clone": CloneOpCallee()}
+
+    @property
+    def globals(self):
+        def getattr_(ex, st, base, attr):
+            if attr == "blocks":
+                return VSeq(BLOCKS(base.z), NBLOCKS(base.z), "ref", "Block")
+            if attr == "args":
+                return VRef(base.z, "BlockArgs")  # the argument view of a block: iterated (source blocks) or read right after insert_arg (new blocks)
+            if attr == "ops":
+                return VSeq(OPSB(base.z), NOPSB(base.z), "ref", "Operation")
+            if base.cls == "BlockArgument" and attr in ("type", "location", "name_hint"):
+                return VRef(z3.Function("arg_" + attr, I, I)(base.z), "str" if attr == "name_hint" else None)
+            return None
+
+        def setter_name_hint(ex, st, args, kw):
+            from pyvc.engine import Res
+
+            st.store("_name", args[0].z, z_int(args[1]))
+            return [Res("val", None, st)]
+
+        def iter_(ex, st, itv):
+            if isinstance(itv, VRef) and itv.cls == "BlockArgs":
+                b = itv.z
+                return (lambda j, s_: VRef(ARGSB(b)[j], "BlockArgument")), NARGSB(b)
+            return None
+
+        def getitem_(ex, st, base, idx):
+            from pyvc.engine import Res
+
+            if isinstance(base, VRef) and base.cls == "BlockArgs":
+                ex.oblige(st, "call-pre", "args[idx]:reads-the-argument-inserted-just-before", z3.And(st.ghost["ins_blk"] == base.z, st.ghost["ins_idx"] == z_int(idx)), "aux")
+                return [Res("val", VRef(st.new_object("new_arg"), "BlockArgument"), st)]
+            return None
+
+        return {"__getattr__": getattr_, "__iter__": iter_, "__getitem__": getitem_,
+                "__setters__": {"name_hint": Builtin(setter_name_hint, "name_hint setter stores the (validated) name")}}
+
+    def setup(self, st, inst):
+        st.ghost["ins_blk"], st.ghost["ins_idx"] = z3.IntVal(0), z3.IntVal(-1)
+        r = st.declare_input("self", z3.Int("self"))
+        dest = st.declare_input("dest", z3.Int("dest"))
+        vm = st.declare_input("value_mapper", z3.Int("value_mapper"))
+        bm = st.declare_input("block_mapper", z3.Int("block_mapper"))
+        return {"self": VRef(r, "Region"), "dest": VRef(dest, "Region"), "insert_index": 0, "value_mapper": VRef(vm, "dict", ("dict", "ref", "ref")),
+                "block_mapper": VRef(bm, "dict", ("dict", "ref", "ref")), "clone_name_hints": inst["hints"], "clone_operands": False,
+                "_r": r, "_vm": vm, "_bm": bm}
+
+    def pre(self, st, a):
+        r, vm, bm = a["_r"], a["_vm"], a["_bm"]
+        self._fentry = st.snapshot()
+        al = st.alloc()
+        b, k, i = z3.Ints("cp!b cp!k cp!i")
+        return inside_region_def(r) + [
+            A("objects", z3.And(r != 0, a["dest"].z != 0, a["dest"].z != r, vm != 0, bm != 0, vm != bm, al[r], al[vm], al[bm])),
+            A("sequences", z3.And(NBLOCKS(r) >= 0, forall([b], z3.And(NARGSB(b) >= 0, NOPSB(b) >= 0)))),
+            A("blocks-args-and-ops-of-the-source-are-objects", z3.And(
+                forall([k], z3.Implies(z3.And(k >= 0, k < NBLOCKS(r)), z3.And(BLOCKS(r)[k] != 0, al[BLOCKS(r)[k]]))),
+                forall([b, i], z3.Implies(z3.And(al[b], i >= 0, i < NARGSB(b)), z3.And(ARGSB(b)[i] != 0, al[ARGSB(b)[i]]))),
+                forall([b, i], z3.Implies(z3.And(al[b], i >= 0, i < NOPSB(b)), z3.And(OPSB(b)[i] != 0, al[OPSB(b)[i]]))))),
+            A("operand-lists-have-lengths", forall([i], st.seq_len("_operands", i) >= 0))]
+
+    def _common(self, st, a):
+        fe = self._fentry
+        r, vm, bm = a["_r"], a["_vm"], a["_bm"]
+        x, d, o = z3.Ints("cv!x cv!d cv!o")
+        return [A("no-entry-removed", forall([x], z3.Implies(fe.dict_has(vm, x), st.dict_has(vm, x)))),
+                A("outside-entries-kept", forall([x], z3.Implies(z3.And(fe.dict_has(vm, x), z3.Not(INSIDE_R(r, x))), st.dict_val(vm, x) == fe.dict_val(vm, x)))),
+                A("pre-existing-dicts-unchanged", forall([d], z3.Implies(z3.And(d != vm, d != bm, fe.alloc()[d]),
+                                                                           z3.And(st.dict_dom(d) == fe.dict_dom(d), st.dict_vals(d) == fe.dict_vals(d))))),
+                A("pre-existing-operand-lists-untouched", forall([o], z3.Implies(fe.alloc()[o], z3.And(st.seq_len("_operands", o) == fe.seq_len("_operands", o),
+                                                                                                        st.seq_arr("_operands", o) == fe.seq_arr("_operands", o)))))]
+
+    def inv(self, n, entry, st, a, lv):
+        fe = self._fentry
+        r, vm = a["_r"], a["_vm"]
+        x, j = z3.Ints("cj!x cj!j")
+        k = lv["k"]
+        blk = lambda kk: BLOCKS(r)[kk]
+        done_blocks = lambda kk: A("values-of-processed-blocks-registered", forall([x], z3.Implies(z3.And(INSIDE_R(r, x), BI(r, x) < kk), st.dict_has(vm, x))))
+        if n == 0:
+            # for block in self.blocks: new_blocks.append(Block()); block_mapper[block] = new_block
+            nb = lv["env"]["new_blocks"]
+            n_new = nb.n if isinstance(nb, VSeq) else z3.IntVal(len(nb.items))
+            return self._common(st, a) + [A("one-new-block-per-processed-block", n_new == k),
+                                          A("value-mapper-untouched", z3.And(st.dict_dom(vm) == fe.dict_dom(vm), st.dict_vals(vm) == fe.dict_vals(vm)))]
+        if n == 1:
+            # for block, new_block in zip(self.blocks, new_blocks)
+            return self._common(st, a) + [done_blocks(k)]
+        k1 = lv["outer"][1]
+        b = blk(k1)
+        args_done = lambda ii: A("arguments-of-this-block-registered", forall([j], z3.Implies(z3.And(j >= 0, j < ii), st.dict_has(vm, ARGSB(b)[j]))))
+        if n == 2:
+            # for idx, block_arg in enumerate(block.args): value_mapper[block_arg] = new_arg
+            return self._common(st, a) + [done_blocks(k1), args_done(k)]
+        # for op in block.ops: new_block.add_op(op.clone(value_mapper, block_mapper, clone_operands=False))
+        return self._common(st, a) + [done_blocks(k1), args_done(NARGSB(b)),
+                                      A("values-of-processed-ops-registered", forall([j, x], z3.Implies(z3.And(j >= 0, j < k, INSIDE_O(OPSB(b)[j], x)), st.dict_has(vm, x))))]
+
+    def post(self, old, st, a, res):
+        return [C(n, z) for n, z in clone_into_post(old, st, a["_r"], a["_vm"], a["_bm"])]
 
     def native_search(self, inst, seed):
         r = N02.explore("quick", seed)
@@ -361,17 +585,24 @@ def make_specs(tier):
     s.instances = [{"hints": h, "operands": o} for h in (True, False) for o in (True, False)]
     c = CloneOp()
     c.instances = [{"hints": True, "operands": o} for o in (True, False)]
-    return [s, c]
+    ci = CloneInto()
+    ci.instances = [{"hints": True}, {"hints": False}]
+    return [s, c, ci]
 
 
 ASSUMPTIONS = [
     "Operation.create / Operation.__init__ are a TRUSTED allocation contract (new op with the given operands, successors, dictionaries, fresh typed results)",
     "value_mapper / block_mapper are given (the `is None` default branches create empty dicts and are covered by the bounded stand-in)",
     "dict.copy returns a new dict with the same content; the name_hint setter only stores a name",
-    "Operation.clone is verified with clone_without_regions replaced by its discharged contract and Region.clone_into by an ASSUMED contract (registers every value defined "
-    "inside the region, keeps existing mapper entries, touches no operand list); the walk of the copy is ASSUMED to pair positionally with the walk of the source and to consist of "
-    "fresh pairwise distinct ops; walk_of / defined_inside_region are uninterpreted",
-    "Region.clone, Region.clone_into, ModulePass.apply_to_clone (recursion over the tree): bounded stand-in only",
+    "Operation.clone and Region.clone_into(clone_operands=False) are verified against each other's DISCHARGED contracts (and clone_without_regions'); the recursion is over a finite "
+    "tree, termination is not proved (partial correctness)",
+    "`defined_inside_region` / `defined_by_or_inside_op` are uninterpreted and axiomatised by their one-level unfolding over the block / op / argument / result / region lists "
+    "of the SOURCE (uninterpreted, state-independent sequences: the source's block structure is not written by any modelled statement); IR well-formedness axiom: an op's own "
+    "results are not defined inside its regions",
+    "in Operation.clone the walk of the copy is ASSUMED to pair positionally with the walk of the source and to consist of fresh pairwise distinct ops (shape of the copy: bounded stand-in)",
+    "in Region.clone_into: Block(), Region.insert_block, Block.insert_arg (+ the read args[idx] right after it) and Block.add_op are trusted models acting on blocks created by the "
+    "call (their list surgery is C01's contract); the source ops are assumed well-formed so that Operation.clone's preconditions hold for each of them",
+    "Region.clone, Region.clone_into with clone_operands=True (generator over the new blocks' walks), ModulePass.apply_to_clone: bounded stand-in only",
 ]
 
 SPECS = make_specs(os.environ.get("VERIF_TIER", "quick"))
